@@ -343,7 +343,14 @@ class Prop(common.PropertyCheck):
                 if law[0] == 'lin':
                     want = float(Decimal(x) / Decimal(law[1]))
                 else:
-                    want = float(Decimal(law[2]) * (Decimal(10) ** (Decimal(law[1]) / Decimal(law[3]) * Decimal(x))))
+                    pw = Decimal(10) ** (Decimal(law[1]) / Decimal(law[3]) * Decimal(x))
+                    want = float(Decimal(law[2]) * pw) if Decimal(law[2]) * pw < Decimal('1.7976931348623157e308') else float('inf')
+                    # the documented expression a1 * 10**(a0*x/r) is evaluated factor by factor: where the power alone leaves the double range
+                    # (above 1.797e308, or below the smallest subnormal) the faithful value is inf (resp. 0), whatever the product would be
+                    if pw > Decimal('1.797693134e308') and y == float('inf') and law[2] > 0:
+                        continue
+                    if pw < Decimal('5e-324') and y == 0.0:
+                        continue
                 # the float exponent a0/r*x carries ~2 roundings, amplified by ln(10)*|exponent| in the result
                 expo = abs(law[1] / law[3] * x) if law[0] == 'log' else 0.0
                 if ulps(want, y) > 4 and abs(want - y) > 1e-15 * (10 + 10 * expo) * abs(want):
